@@ -391,6 +391,23 @@ class FnExtractor:
             raise TranslatorError(f'{self.cls}.{self.fn.name}: unrecognised `if self._changed is None` shape')
         return True
 
+    def is_changed_attr(self, s):
+        """if self._changed is not None: [backup = self._backup._atoms]; self._changed.update(<atoms whose charge / radical
+        state differs from the backup>)   -- transaction exit adds the directly edited atoms to the pending set"""
+        if not (isinstance(s, ast.If) and ast.unparse(s.test) == 'self._changed is not None' and not s.orelse):
+            return False
+        body = list(s.body)
+        if body and isinstance(body[0], ast.Assign) and ast.unparse(body[0].value) == 'self._backup._atoms':
+            body = body[1:]
+        if len(body) != 1 or not (isinstance(body[0], ast.Expr) and isinstance(body[0].value, ast.Call)
+                                  and isinstance(body[0].value.func, ast.Attribute) and body[0].value.func.attr == 'update'
+                                  and is_self_attr(body[0].value.func.value, '_changed')):
+            return False
+        src = ast.unparse(body[0].value)
+        if not ('.charge !=' in src and '.is_radical !=' in src and 'self._atoms' in src and ' in backup' in src):
+            raise TranslatorError(f'{self.cls}.{self.fn.name}: unrecognised `_changed.update(...)` at transaction exit')
+        return True
+
     def is_changed_discard(self, s):
         """if self._changed is not None: self._changed.discard(n)"""
         if not (isinstance(s, ast.If) and ast.unparse(s.test) in ('self._changed is not None', 'self._changed')):
@@ -418,6 +435,9 @@ class FnExtractor:
             if isinstance(s, ast.If):
                 if self.is_changed_add(s):
                     self.emit(guards, 'Ev.changedAdd')
+                    continue
+                if self.is_changed_attr(s):
+                    self.emit(guards, 'Ev.changedAttr')
                     continue
                 if self.is_changed_discard(s):
                     self.emit(guards, 'Ev.changedDiscard')
@@ -751,7 +771,7 @@ def render(d, data_only_namespace=None):
     w('inductive Ev where')
     w('  | edit | call (f : String) (args : List (String × Flag)) | flushAll | flush (kS kC : Flag)')
     w('  | pop (k : String) | dictSet (k : String) | readC (k : String)')
-    w('  | changedAdd | changedDiscard | changedNone | changedRead | backupRead | backupCopy (kS kC : Flag) | backupNone')
+    w('  | changedAdd | changedDiscard | changedAttr | changedNone | changedRead | backupRead | backupCopy (kS kC : Flag) | backupNone')
     w('  | restore (slots : List String) | hcalc | labelsWrite | stereoWrite')
     w('  deriving DecidableEq, Repr, Inhabited')
     w('structure GEv where')
